@@ -16,10 +16,10 @@ from common import VERIF, REPO, scratch, Undecided, write_evidence, write_replay
 from rustcut import AnchorLost
 from verus_run import verus, locate, obligation_id
 
-C01_KEYS = ('lp(', 'ext(', 'extd(', 'wf()', 'depth(', 'open_at(', 'handed(', 'mark_ok(', 'is_open(', 'events',
+C01_KEYS = ('lp(', 'ext(', 'extd(', 'wf()', 'wf_ev()', 'depth(', 'open_at(', 'handed(', 'mark_ok(', 'is_open(', 'events',
             'tokens_raw', 'src@', 'n_adv', 'nested', '.index', 'tokens@ ==')
 C02_KEYS = ('prog(', '.pos', 'cur()', 'kidx(', 'rem()', 'is Some', 'is None', 'has(', '_spec(', 'MAX_DEPTH', '.depth',
-            'seq_has', 'bit(', 'handed(', 'wf()', 'kind !=', 'tokens.len()', 'tokens@.len()')
+            'seq_has', 'bit(', 'handed(', 'wf()', 'wf_tok()', 'kind !=', 'tokens.len()', 'tokens@.len()')
 C02_MSGS = ('could not prove termination', 'decreases not satisfied', 'possible arithmetic', 'possible bit shift',
             'possible division', 'unreachable')
 
@@ -154,7 +154,7 @@ def deep_probe(tier):
     """Bounded stand-in for the two things the Verus unit does not model: the machine stack and the
     progress guard's fuel (a Cell mutated through &self).  Every nesting construct at depths around
     and far beyond MAX_DEPTH, on the real crate, in a 2 MiB thread."""
-    ns = (99, 100, 101, 250, 5000) if tier == 'quick' else (50, 99, 100, 101, 102, 150, 250, 1000, 5000, 50000)
+    ns = (99, 100, 101, 250, 5000, 120000) if tier == 'quick' else (50, 99, 100, 101, 102, 150, 250, 1000, 5000, 50000, 200000)
     ran = 0
     for nm, _, _, _ in witness.DEEP:
         for n in ns:
@@ -256,6 +256,9 @@ def main(prop, tier):
             bounded.append({'what': 'deep-nesting inputs on the real crate in a 2 MiB thread (stack depth and progress-guard fuel are outside the Verus model)',
                             'bound': 'constructs=%d depths per construct: see tools/prop_parser.py deep_probe (%s tier)' % (len(witness.DEEP), tier),
                             'inputs_run': ran, 'failed': bool(w)})
+            if w and w['kind'] not in ('panic', 'hang', 'abort'):
+                bounded[-1]['other_property_symptom'] = '%s on %s (belongs to C01 / C20, not reported here)' % (w['kind'], w.get('input_recipe'))
+                w = None
             if w:
                 oblig = 'parser :: bounded-check :: deep nesting :: %s' % w.get('input_recipe')
                 if not matches_known(kf, prop, oblig, w, known_lines):
@@ -279,6 +282,7 @@ def main(prop, tier):
 
     # ---- tree builder (Kani, bounded)
     bt_undecided = []
+    bt_seen, bt_witness = set(), [None]
     if bt:
         results, pairs = bt
         for r in results:
@@ -290,12 +294,20 @@ def main(prop, tier):
             if r['status'] in ('ERROR', 'TIMEOUT'):
                 bt_undecided.append(r['harness'])
             elif r['status'] == 'FAILED':
-                w = None
-                try:
-                    w, _n = witness.enumerate_inputs(3, 240, seed())
-                except Undecided:
-                    w = None
+                if bt_witness[0] is None:
+                    try:
+                        bt_witness[0] = witness.enumerate_inputs(3, 240, seed())[0] or False
+                    except Undecided:
+                        bt_witness[0] = False
+                w = bt_witness[0] or None
                 for fcheck in r['failed_checks']:
+                    if 'build_tree' not in r['harness'] and not any(k in fcheck['description'] for k in ('leaves', 'pushes no event', 'nth ')):
+                        entry.setdefault('other_property_failures', []).append(fcheck['description'] + ' (error-range clause: C20)')
+                        continue
+                    key = ('build_tree' if 'build_tree' in r['harness'] else r['harness'], fcheck['description'])
+                    if key in bt_seen:
+                        continue
+                    bt_seen.add(key)
                     path = write_replay(prop, 'parser_kani :: %s :: %s' % (r['harness'].split('::')[-1], fcheck['description']),
                                         'crates/syntax/src/parser.rs (Parser::build_tree)' if 'build_tree' in r['harness'] else 'crates/syntax/src/parser.rs (Parser::nth / Parser::error)',
                                         'kani 0.68.0 / cbmc 6.11', json.dumps(fcheck), w, './check %s --replay <this file>' % prop)
@@ -338,6 +350,7 @@ def main(prop, tier):
         'functions_under_contract': info['contracted'],
         'functions_with_default_frame_contract': info['defaulted'],
         'loops_under_contract': info['loops_contracted'],
+        'contract_anchors_no_longer_in_the_tree': info['dropped_anchors'],
         'back_end': 'Verus 0.2026.09.13 / Z3',
         'solver_time_ms': res['smt_ms'],
         'verus_total_ms': res['total_ms'],
